@@ -476,3 +476,11 @@ def spec_b64u_decode(text):
     import base64 as _b
     b = text.encode("ascii") if isinstance(text, str) else text
     return _b.b64decode(b + b"=" * (-len(b) % 4), b"-_")
+
+
+def mk_datetime(wall, offset=None):
+    """A datetime.datetime whose wall-clock fields are `wall` seconds after 1970-01-01T00:00:00 and whose tzinfo is a
+    fixed offset of `offset` seconds east of UTC (None: naive).  Its NumericDate is wall - offset (naive: wall)."""
+    import datetime as _dt
+    tz = None if offset is None else _dt.timezone(_dt.timedelta(seconds=offset))
+    return _dt.datetime(1970, 1, 1, tzinfo=tz) + _dt.timedelta(seconds=wall)
